@@ -306,6 +306,11 @@ func (s recStream) Send(m *pdpb.RegionHeartbeatResponse) error {
 	if atomic.LoadInt32(s.broken) != 0 {
 		return fmt.Errorf("stream is broken")
 	}
+	if m.GetRegionId() == 0 && m.GetTargetPeer() == nil {
+		// the keep-alive HeartbeatStreams pushes into every stream once a minute: not a command (a driver run of
+		// more than a minute would otherwise find one per store among the commands of whatever step comes next)
+		return nil
+	}
 	s.r.ch <- m
 	return nil
 }
